@@ -521,6 +521,85 @@ func init() {
 					}
 					c.Case(0, true, map[bool]string{true: "both-accept", false: "both-refuse"}[panD == ""])
 				}})
+			// the same differential for the two kinds of variable that are not array elements: an ASCII variable (its
+			// constructor counterpart: NewASCIINode(value) for a string within the bounds, refusal for everything else) and a
+			// list-level variable (counterpart: NewListNode with the value in that place: an item, a name, an ellipsis name or
+			// a refusal), at depth 0, 1 and 2 and in first / later position
+			lvals := []struct {
+				desc string
+				v    interface{}
+			}{
+				{"int 5", 5}, {"nil", nil}, {"[]byte", []byte("ab")}, {"bool", true}, {"float", 1.5}, {"rune", 'a'}, {"[]string", []string{"ab"}},
+				{"string ab", "ab"}, {"string empty", ""}, {"string with blank", "hello world"}, {"string 9lives", "9lives"}, {"string ...", "..."}, {"string ...[1]", "...[1]"},
+				{"string x[0]", "x[0]"}, {"string x[", "x["}, {"string é", "é"}, {"string v9", "v9"}, {"string other", "other"},
+				{"item <U1 7>", ast.NewUintNode(1, 7)}, {"item <A ab>", ast.NewASCIINode("ab")}, {"item <L>", ast.NewListNode()}, {"item <A v9>", ast.NewASCIINodeVariable("v9", 0, -1)},
+				{"item with variable other", ast.NewUintNode(1, "other")}, {"empty item", ast.NewEmptyItemNode()},
+			}
+			sp = append(sp, h.Space{Name: "ascii-and-list-variables-refuse-exactly-what-the-constructor-refuses", Count: product(len(lvals), 2, 3, 2, 2),
+				Describe: func(i uint64) interface{} {
+					d := unrank(i, len(lvals), 2, 3, 2, 2)
+					return fmt.Sprintf("%s for %s at depth %d, %s position, via %s", lvals[d[0]].desc, []string{"an ASCII variable [1..3]", "a list-level variable"}[d[1]], d[2], []string{"first", "second"}[d[3]], []string{"item", "message"}[d[4]])
+				},
+				Run: func(c *h.Ctx, i uint64) {
+					d := unrank(i, len(lvals), 2, 3, 2, 2)
+					val, depth, second := lvals[d[0]].v, d[2], d[3] == 1
+					// build <L [<U1 other>] X> with X the variable (template) or the value in place (direct), wrapped depth times
+					mk := func(x interface{}) (it ast.ItemNode, pan string) {
+						return tryItem(func() ast.ItemNode {
+							var l ast.ItemNode
+							if second {
+								l = ast.NewListNode(ast.NewUintNode(1, "other"), x)
+							} else {
+								l = ast.NewListNode(x, ast.NewUintNode(1, "other"))
+							}
+							for j := 0; j < depth; j++ {
+								l = ast.NewListNode(ast.NewBooleanNode(true), l)
+							}
+							return l
+						})
+					}
+					var tmpl, direct ast.ItemNode
+					var panD string
+					if d[1] == 0 {
+						tmpl, _ = mk(ast.NewASCIINodeVariable("v0", 1, 3))
+						if str, isS := val.(string); isS && len(str) >= 1 && len(str) <= 3 {
+							direct, panD = mk(func() (x interface{}) {
+								defer func() {
+									if recover() != nil {
+										x = 0 // NewASCIINode refuses the text: so must the fill
+									}
+								}()
+								return ast.NewASCIINode(str)
+							}())
+						} else {
+							panD = "not a string within [1..3]"
+						}
+					} else {
+						tmpl, _ = mk("v0")
+						direct, panD = mk(val)
+					}
+					in := fmt.Sprintf("%s filled with v0 = %s", strings.ReplaceAll(itemString(tmpl), "\n", " "), lvals[d[0]].desc)
+					var got ast.ItemNode
+					var panF string
+					if d[4] == 0 {
+						got, panF = tryFill(tmpl, map[string]interface{}{"v0": val})
+					} else {
+						msg := ast.NewDataMessage("", 1, 1, 0, "H->E", tmpl)
+						if p := catch(func() { got = msgItem(msg.FillVariables(map[string]interface{}{"v0": val})) }); p != nil {
+							panF = fmt.Sprint(p)
+						}
+					}
+					c.Ops(3)
+					switch {
+					case (panD == "") != (panF == ""):
+						c.Fail("fill-and-constructor-disagree-on-refusal:"+[]string{"ascii-variable", "list-variable"}[d[1]], in, fmt.Sprintf("direct construction: %q, FillVariables: %q, result %s", panD, panF, strings.ReplaceAll(itemString(got), "\n", " ")))
+					case panD == "":
+						if dd := sameItem(direct, got); dd != "" {
+							c.Fail("fill-differs-from-direct-construction", in, dd)
+						}
+					}
+					c.Case(0, true, map[bool]string{true: "both-accept", false: "both-refuse"}[panD == ""])
+				}})
 			// messages: fill x wait bit x session in every order, split fills
 			msgT := []*ref.Node{
 				{Kind: ref.U1, Elems: []ref.Elem{{Var: "v0"}, {U: 2}, {Var: "v1"}}},
